@@ -3,6 +3,8 @@ C19 helper lemmas, part 1: bytes, TrimSpace, the scanner's tokens, and `scan` as
 -/
 import Hts.Model.Fai
 import Hts.Spec.Fasta
+set_option linter.unusedVariables false
+set_option linter.unusedSimpArgs false
 namespace Hts.Lemmas.Fai
 open Hts.Model.Fai
 open Hts.Spec.Fasta (isGraphic isBase isDescByte isBlankByte)
